@@ -281,6 +281,9 @@ def streams_quick(tier):
         for app in ((b'', b'Z', b'HELLO') if req == 'CONNECT' else (b'',)):
             out.append((req, 'ok-v4+%d' % len(app), ok + v4 + app))
             out.append((req, 'ok-v6+%d' % len(app), ok + v6 + app))
+            # an address with octets >= 0x80 (most real ones), and a bound "name" that is not ASCII
+            out.append((req, 'ok-v6hi+%d' % len(app), ok + socks5.reply(0, 4, bytes.fromhex('20010db8000000000000fffffe80a1b2'), 443) + app))
+            out.append((req, 'ok-dom8+%d' % len(app), ok + socks5.reply(0, 3, 'caf\u00e9.example'.encode('utf-8'), 443) + app))
             for dname in dom:
                 out.append((req, 'ok-dom%d+%d' % (len(dname), len(app)), ok + socks5.reply(0, 3, dname, 80) + app))
     return out
